@@ -59,6 +59,43 @@ Flat(ws) == IF ws = <<>> THEN <<>> ELSE Head(ws) \o Flat(Tail(ws))
 Lens(s) == LET w == Words(s) IN [i \in 1..Len(w) |-> Len(w[i])]
 
 --------------------------------------------------------------------------
+(* The six converters (pkg/camelcase/naming.go) - beyond C19, which only says they are total and pure; bin/extras, family
+   caseconv. A converter is Split, a filter, a per-word form and a linker:
+       out = Join(linker, << form(w_k, k) : w_k the k-th KEPT word >>)
+   A word is dropped iff it is ONE BYTE long and that byte, read as a rune, is graphic but neither letter nor digit
+   (so "_", "-", " ", "." between words vanish, a two-byte punctuation rune does not). The forms of a word (lower, upper,
+   title - Unicode case mappings) are facts the harness logs from the standard library; the model composes them.
+   Camel forms: a word that is "id" in any ASCII case becomes "ID"; the first kept word of lowerCamel is lower-cased
+   (before the ID rule); every other word is title-cased.                                                            *)
+Convs == <<[name |-> "UPPER_SNAKE", linker |-> <<95>>, form |-> "upper"],
+           [name |-> "lower_snake", linker |-> <<95>>, form |-> "lower"],
+           [name |-> "UPPER-KEBAB", linker |-> <<45>>, form |-> "upper"],
+           [name |-> "lower-kebab", linker |-> <<45>>, form |-> "lower"],
+           [name |-> "UpperCamel",  linker |-> <<>>,   form |-> "camel"],
+           [name |-> "lowerCamel",  linker |-> <<>>,   form |-> "lcamel"]>>
+
+IsID(w) == w \in {<<73, 68>>, <<105, 100>>, <<73, 100>>, <<105, 68>>}
+
+(* words: what Split returned (byte sequences); forms[i]: the logged facts about words[i] *)
+KeptIdx(forms) == SelectSeq([i \in 1..Len(forms) |-> i], LAMBDA i : ~forms[i].drop)
+FormOf(kind, w, f, k) ==
+    CASE kind = "upper"  -> f.upper
+      [] kind = "lower"  -> f.lower
+      [] kind = "camel"  -> IF IsID(w) THEN <<73, 68>> ELSE f.title
+      [] kind = "lcamel" -> IF k = 1 THEN f.lower ELSE IF IsID(w) THEN <<73, 68>> ELSE f.title
+
+RECURSIVE JoinFrom(_, _, _, _, _)
+JoinFrom(conv, words, forms, kept, k) ==
+    IF k > Len(kept) THEN <<>>
+    ELSE (IF k > 1 THEN conv.linker ELSE <<>>) \o FormOf(conv.form, words[kept[k]], forms[kept[k]], k)
+         \o JoinFrom(conv, words, forms, kept, k + 1)
+ConvExpected(conv, words, forms) == JoinFrom(conv, words, forms, KeptIdx(forms), 1)
+
+(* Loop A for the converters, on the class level: a class string made of letters and digits only loses nothing to the
+   filter (no word of it starts with another class, so every word is kept) *)
+DesignConvKeepsAlnum == (\A i \in 1..Len(cls) : cls[i] # "o") => \A i \in 1..Len(Words(cls)) : Words(cls)[i][1] # "o"
+
+--------------------------------------------------------------------------
 (* Loop A: the design is total, produces non-empty words, and is lossless, for every input. *)
 DesignTotal    == ~Panics(cls)
 DesignNonEmpty == \A i \in 1..Len(Words(cls)) : Words(cls)[i] # <<>>
